@@ -9,6 +9,7 @@ pub mod t_manip;
 pub mod t_traverse;
 pub mod t_equal;
 pub mod t_model;
+pub mod t_nodemap;
 
 pub type Harness = fn();
 pub fn registry() -> Vec<(&'static str, Harness)> {
@@ -19,5 +20,6 @@ pub fn registry() -> Vec<(&'static str, Harness)> {
     t_traverse::register(&mut v);
     t_equal::register(&mut v);
     t_model::register(&mut v);
+    t_nodemap::register(&mut v);
     v
 }
